@@ -263,6 +263,45 @@ def check(ctx):
                                       'object with the specification' % norm_stmt(a7), stmt='default attribute handed out')
     if n7 < 4:
         raise AnalysisError('C18.R7 found only %d places where a decoder fills in a default' % n7)
+    # ---- R8: the same for every other mutable object built at compile time: an Element that __init__ keeps on the compiled type is not placed into a result (appended
+    #      to the returned element, returned itself): the caller - or the library's own post-processing, indent_xml() - would write into compiled state
+    ctx.rule('C18.R8', 'elements built by a constructor of a compiled type are never placed into an encode / decode result')
+    n8 = 0
+    for name in ('ber', 'der', 'per', 'uper', 'oer', 'jer', 'xer', 'gser'):
+        m8 = model.mod('asn1tools/codecs/%s.py' % name)
+        for c8 in m8.classes.values():
+            ini8 = c8.methods.get('__init__')
+            if ini8 is None:
+                continue
+            built = {}
+            for a8 in walk_no_nested(ini8):
+                if isinstance(a8, ast.Assign) and isinstance(a8.targets[0], ast.Attribute) and isinstance(a8.targets[0].value, ast.Name) and a8.targets[0].value.id == 'self':
+                    if any(isinstance(x_, ast.Call) and ast.unparse(x_.func).split('.')[-1] in ('Element', 'SubElement') for x_ in ast.walk(a8.value)):
+                        built[a8.targets[0].attr] = a8
+            if not built:
+                continue
+            for f8 in c8.methods.values():
+                if not (f8.name.startswith('encode') or f8.name.startswith('decode')):
+                    continue
+                for x_ in walk_no_nested(f8):
+                    scope = []
+                    if isinstance(x_, ast.Call) and isinstance(x_.func, ast.Attribute) and x_.func.attr in ('append', 'extend', 'insert'):
+                        scope = list(x_.args)
+                    elif isinstance(x_, ast.Return) and x_.value is not None:
+                        scope = [x_.value]
+                    hit = None
+                    for e_ in scope:
+                        for y_ in ast.walk(e_):
+                            if isinstance(y_, ast.Attribute) and isinstance(y_.value, ast.Name) and y_.value.id == 'self' and y_.attr in built:
+                                hit = y_
+                    if hit is not None:
+                        n8 += 1
+                        ctx.instance('C18.R8', '%s places self.%s into its result' % (Model.qual(f8), hit.attr), 'VIOLATION', node=x_, file=m8.rel)
+                        ctx.violation('C18.R8', m8.rel, x_, Model.qual(f8),
+                                      '`%s` places self.%s, an element built once in __init__, into the result: every result shares that object, and indent_xml() (encode(..., indent=n)) '
+                                      'writes its white-space into it - a later call without indentation emits the stale white-space, so the result depends on earlier calls'
+                                      % (norm_stmt(Model.enclosing_stmt(x_)), hit.attr), stmt='compile-time element placed into a result')
+    ctx.instance('C18.R8', 'compile-time elements placed into results: %d' % n8, 'ok' if n8 == 0 else 'VIOLATION', nontrivial=True)
     ctx.instance('C18.R6', '%d functions of the package examined, %d memoised' % (n_funcs, n6), 'ok', nontrivial=n_funcs > 500)
     if n_funcs < 500:
         raise AnalysisError('C18.R6 saw only %d functions' % n_funcs)
